@@ -146,6 +146,30 @@ def registrable (otype : Nat) : Bool :=
   otype == OT.certificate || otype == OT.symmetricKey || otype == OT.publicKey || otype == OT.privateKey
   || otype == OT.splitKey || otype == OT.secretData || otype == OT.opaqueData
 
+/-- `ObjectFactory.convert(secret)` (kmip/pie/factory.py l.36-147 + the `validate()` methods of
+kmip/pie/objects.py): what the pie classes refuse.  The TypeError / ValueError / AttributeError they raise is
+answered Invalid Field (engine.py `_process_register`, after the repair 8101ec5).  Unwrapped keys only (the
+model's `RegObj` carries no key wrapping data). -/
+def convertCheck (ro : RegObj) : R Unit :=
+  if ro.otype == OT.certificate then
+    if ro.subtype == some 1 then pure () else kerr Rsn.invalidField "core certificate type not supported"
+  else if ro.otype == OT.symmetricKey || ro.otype == OT.publicKey || ro.otype == OT.privateKey
+          || ro.otype == OT.splitKey then
+    match ro.alg, ro.len, ro.format with
+    | some _, some l, some f =>
+      if ro.otype == OT.symmetricKey then
+        if hexBytes ro.value * 8 != l then kerr Rsn.invalidField "key length not equal to key value length"
+        else if f != 1 then kerr Rsn.invalidField "core key format type not compatible with Pie SymmetricKey"
+        else pure ()
+      else if ro.otype == OT.publicKey then
+        if f == 1 || f == 5 || f == 3 then pure () else kerr Rsn.invalidField "key format type must be one of Raw, X.509, PKCS#1"
+      else if ro.otype == OT.privateKey then
+        if f == 1 || f == 3 || f == 4 then pure () else kerr Rsn.invalidField "key format type must be one of Raw, PKCS#1, PKCS#8"
+      else pure ()
+    | _, _, _ => kerr Rsn.invalidField "The object is missing a field required to register it."
+  else if ro.subtype.isNone then kerr Rsn.invalidField "The object is missing a field required to register it."
+  else pure ()
+
 def opRegister (c : Ctx) (e : Engine) (otype : Nat) (tmpl : Option Template) (obj : Option RegObj) :
     R (Effect × Data) := do
   if !registrable otype then kerr Rsn.invalidField "The object type is not supported." else
@@ -153,6 +177,7 @@ def opRegister (c : Ctx) (e : Engine) (otype : Nat) (tmpl : Option Template) (ob
   | none => kerr Rsn.invalidField "Cannot register a secret in absentia."
   | some ro =>
     let d ← processTemplate? c e.version tmpl
+    convertCheck ro
     let o ← setAttrs c { newObj ro.otype ro.value with alg := ro.alg, len := ro.len, format := ro.format, subtype := ro.subtype } d
     pure (.insert [finalize c e o], .uid (toString e.store.nextUid))
 
@@ -175,8 +200,9 @@ def deriveBases (c : Ctx) (e : Engine) : List String → R (List Obj)
 def deriveLen (d : AttrDict) : R Nat :=
   match d.get "Cryptographic Length" with
   | some (.single (.int l)) =>
-    if l < 0 then ierr "negative length" else
-    if l.toNat % 8 == 0 then pure (l.toNat / 8)
+    if l % 8 == 0 then
+      if l / 8 ≤ 0 then kerr Rsn.invalidField "The cryptographic length must be greater than zero."
+      else pure (l / 8).toNat
     else kerr Rsn.invalidField "The cryptographic length must be a multiple of 8."
   | some _ => ierr "length value"
   | none => kerr Rsn.invalidField "The cryptographic length must be provided in the template attribute."
